@@ -8,6 +8,7 @@ try:
 except ImportError:
     _ring = None
 
+import itertools
 import numpy, z3
 from pyvc import sym, lemma
 from pyvc.lemma import real, POW, pow_succ, pow_mul, pow_one, pow_zero
@@ -102,6 +103,7 @@ def u_b_twoway(ctx):
         trait = numpy.array(["t%d" % i for i in range(t)], dtype=object)
         alg = A(beta=barr.fresh("b", (1, t), "float64"), u_misc=None, u_a=u, trait=trait)
         fn = HaldaneMapFunction()
+        fr = modeb.Frame(hap=hap, genpos=genpos, u=u)
         out = GV.from_algmod(alg, pg, 1, 1, nself, fn, mem)
         V = out.mat
         e.prove(tag + ":shape", tuple(V.shape) == (n, n, t))
@@ -125,10 +127,9 @@ def u_b_twoway(ctx):
                         e.prove(tag + ":genetic[%d,%d,%d]==blocked-double-sum" % (f, m, k), R(V[f, m, k]) == spec)
         e.prove(tag + ":genetic:symmetric", z3.And(*[R(V[f, m, k]) == R(V[m, f, k]) for f in range(n) for m in range(n) for k in range(t)]))
         e.prove(tag + ":genetic:labels-carried", list(out.taxa) == list(pg.taxa) and list(out.trait) == list(trait))
+        e.prove(tag + ":frame:haplotypes-positions-effects-not-modified", fr.unchanged())
         e.prove(tag + ":canary:variance-is-zero", z3.And(*[R(V[f, m, k]) == 0 for f in range(n) for m in range(n) for k in range(t)]),
                 expect="fail", timeout_ms=3000)
-        if p > 2 and ctx.tier != "thorough":
-            return "ok"         # the genic identity with 3 loci is a hard nonlinear query (30 s each): thorough tier only
         gout = NV.from_algmod(alg, pg, 1, 1000 if mem is None else mem)
         W = gout.mat
         for f in range(n):
@@ -138,7 +139,14 @@ def u_b_twoway(ctx):
                 for k in range(t):
                     d = [R(hap[f, i]) - R(hap[m, i]) for i in range(p)]
                     spec = sum((d[i] * R(u[i, k]) * d[i] * R(u[i, k]) for i in range(p)), z3.RealVal(0))
-                    e.prove(tag + ":genic[%d,%d,%d]==sum_i (d_i u_i)^2 (linkage ignored)" % (f, m, k), R(W[f, m, k]) == spec)
+                    # the two parents' alleles are 0/1: decided per allele pattern (each case is a polynomial identity in the
+                    # effects; the undivided query is a mixed integer/real nonlinear problem on which z3's run time is erratic)
+                    goal = R(W[f, m, k]) == spec
+                    hv = [_t(hap[f, i]) for i in range(p)] + [_t(hap[m, i]) for i in range(p)]
+                    cases = []
+                    for pat in itertools.product((0, 1), repeat=2 * p):
+                        cases.append(z3.simplify(z3.substitute(goal, *[(hv[a_], z3.IntVal(pat[a_])) for a_ in range(2 * p)])))
+                    e.prove(tag + ":genic[%d,%d,%d]==sum_i (d_i u_i)^2 (linkage ignored)" % (f, m, k), z3.And(*cases))
         return "ok"
     inf = numpy.inf
     shapes = [(2, (1,), 1, 0, 1024), (2, (2,), 1, 0, None), (2, (2,), 1, 1, 1), (2, (2, 1), 2, inf, 2), (3, (2,), 1, 2, 1)]
